@@ -544,7 +544,9 @@ func (self *Value) updateByteLen(originLen int, address []int, isPacked bool, pa
 		// notice: when i == len(address) - 1, it do not change bytes length because it has been changed in replace function, just change previousType
 		pathType := path[i].t
 		if previousType == proto.MESSAGE || (previousType == proto.LIST && isPacked) {
-			diffLen += self.resizeLength(address[i], diffLen)
+			// a packed list that lost its last element disappears; an emptied message stays, as a
+			// list element, a map value or a present singular field with no content
+			diffLen += self.resizeLength(address[i], diffLen, previousType == proto.LIST)
 			isPacked = false
 		}
 
@@ -552,7 +554,7 @@ func (self *Value) updateByteLen(originLen int, address []int, isPacked bool, pa
 			// the value lives in a map entry [pairTag][pairLen][key][value], whose length changes too
 			if i > 0 && diffLen != 0 {
 				if pair, ok := self.findPair(address[i-1], address[i]); ok {
-					diffLen += self.resizeLength(pair, diffLen)
+					diffLen += self.resizeLength(pair, diffLen, false)
 				}
 			}
 			previousType = proto.MAP
@@ -594,8 +596,9 @@ func (self *Value) findPair(first int, pos int) (int, bool) {
 }
 
 // resizeLength adds diffLen to the length prefix of the length-delimited field whose tag is at addressPtr,
-// and returns by how many bytes the buffer grew or shrank because of it.
-func (self *Value) resizeLength(addressPtr int, diffLen int) int {
+// and returns by how many bytes the buffer grew or shrank because of it. With dropEmpty the field is removed
+// altogether when nothing is left of it.
+func (self *Value) resizeLength(addressPtr int, diffLen int, dropEmpty bool) int {
 	newBytes := NewBytesFromPool()
 	defer FreeBytesToPool(newBytes)
 	// tag
@@ -606,7 +609,7 @@ func (self *Value) resizeLength(addressPtr int, diffLen int) int {
 	newLength := int(length) + diffLen
 	newBytes = protowire.AppendVarint(newBytes, uint64(newLength))
 	// length == 0 means had been deleted all the data in the field
-	if newLength == 0 {
+	if newLength == 0 && dropEmpty {
 		newBytes = newBytes[:0]
 	}
 
@@ -620,7 +623,7 @@ func (self *Value) resizeLength(addressPtr int, diffLen int) int {
 
 	// split length
 	srcHead := rt.AddPtr(self.v, uintptr(addressPtr+tagOffset))
-	if newLength == 0 {
+	if newLength == 0 && dropEmpty {
 		// delete tag
 		srcHead = rt.AddPtr(self.v, uintptr(addressPtr))
 		subLen -= tagOffset
